@@ -149,6 +149,7 @@ def _forall_seq(I, seq, pred, exists=False):
     ctx = I.ctx
     i = ctx.push_bound("q")
     rng = z3.And(i.z >= 0, i.z < to_int_z(seq.length))
+    ctx.nonneg.add(i.z.get_id())
 
     def thunk():
         ctx.pc.append(rng)
@@ -410,8 +411,17 @@ def b_zip(I, args, kw):
         return [tuple(t) for t in zip(*lists)]
     seqs = [seq_of(a) if not isinstance(a, SymSeq) else a for a in args]
     length = seqs[0].length
-    for s in seqs[1:]:
-        length = v_ite(v_cmp("LtE", length, s.length), length, s.length)
+    if len(seqs) >= 3 and any(not isinstance(s.length, int) for s in seqs):
+        # name the minimum of three or more lengths (nested if-then-else terms are duplicated exponentially in index
+        # normalisations): n <= every length and n equals one of them
+        n = I.ctx.fresh("ziplen", "int")
+        lens = [to_int_z(s.length) for s in seqs]
+        I.ctx.fact(z3.And(*[n.z <= ln for ln in lens]))
+        I.ctx.fact(z3.Or(*[n.z == ln for ln in lens]))
+        length = n
+    else:
+        for s in seqs[1:]:
+            length = v_ite(v_cmp("LtE", length, s.length), length, s.length)
     return SymSeq(length, lambda i: tuple(s.get(i) for s in seqs), "zip")
 
 
@@ -1182,17 +1192,33 @@ _EXTERNALS["numpy.asarray"] = ExternalFn("numpy.asarray", _np_asarray)
 _EXTERNALS["numpy.array"] = ExternalFn("numpy.array", _np_asarray)
 
 
+def _filled(I, args, kw, val, what):
+    """1-D numpy.zeros / numpy.ones of a (possibly symbolic) length: a sequence whose every element is the constant"""
+    shape = args[0] if args else kw.get("shape")
+    if isinstance(shape, tuple) and len(shape) == 1:
+        shape = shape[0]
+    if isinstance(shape, bool) or isinstance(shape, tuple):
+        raise Unsupported(what + " with a multi-dimensional shape outside pointwise mode")
+    if isinstance(shape, int):
+        if shape > 64:
+            raise Unsupported(what + " of a large concrete length")
+        return tuple(val for _ in range(shape))
+    zn = to_int_z(shape)
+    I.ctx.oblige_implicit(what + "-length-nonnegative", zn >= 0)
+    return SymSeq(mk(zn), lambda i: val, what)
+
+
 @_ext("numpy.zeros")
 def np_zeros(I, args, kw):
     if not I.options.get("pointwise"):
-        raise Unsupported("np.zeros outside pointwise mode")
+        return _filled(I, args, kw, 0, "np.zeros")
     return 0
 
 
 @_ext("numpy.ones")
 def np_ones(I, args, kw):
     if not I.options.get("pointwise"):
-        raise Unsupported("np.ones outside pointwise mode")
+        return _filled(I, args, kw, 1, "np.ones")
     return 1
 
 
@@ -1285,7 +1311,8 @@ def np_linspace(I, args, kw):
     """ASSUMED contract of numpy.linspace over the reals: num points start + i*step, step = (stop-start)/(num-1) with the
     end point (num > 1), (stop-start)/num without it; a single point is `start`."""
     a = list(args) + [None] * (3 - len(args))
-    start, stop = a[0], a[1]
+    start = a[0] if a[0] is not None else kw["start"]
+    stop = a[1] if a[1] is not None else kw["stop"]
     num = a[2] if a[2] is not None else kw.get("num", 50)
     endpoint = kw.get("endpoint", True)
     I.ctx.trusted.add("ASSUMED contract: numpy.linspace(a, b, n, endpoint)[i] == a + i*step (A-REAL)")
